@@ -71,15 +71,21 @@ def _on_vtalrm(signum, frame):  # pragma: no cover - only when a call spins
             g = g.f_back
         if outer is not None:
             cur.append((outer, f))
-    old = _WD["frames"]
-    kept = [(o, f) for (o, f) in cur if any(o is o2 for o2 in old)]
-    _WD["frames"] = [o for o, _ in cur]
-    if not kept:
-        _WD["hits"] = 0
+    old = _WD["frames"]  # list of (frame, looks survived)
+    nxt, worst = [], None
+    for o, f in cur:
+        n = 0
+        for o2, n2 in old:
+            if o is o2:
+                n = n2 + 1
+                break
+        nxt.append((o, n))
+        if n >= WD_HITS and worst is None:
+            worst = (o, f)
+    _WD["frames"] = nxt
+    if worst is None:
         return
-    _WD["hits"] += 1
-    if _WD["hits"] < WD_HITS:
-        return
+    kept = [worst]
     outer, inner = kept[0]
     stack = []
     g = inner
@@ -97,7 +103,6 @@ def _on_vtalrm(signum, frame):  # pragma: no cover - only when a call spins
             except BaseException:  # noqa: BLE001
                 loc[k] = "<unrepresentable>"
         harness = f"{h.f_code.co_filename}:{h.f_lineno} in {h.f_code.co_name} locals={loc}"
-    _WD["hits"] = 0
     _WD["frames"] = []
     raise CallDidNotReturn(getattr(outer.f_code, "co_qualname", outer.f_code.co_name), stack, harness)
 
